@@ -191,6 +191,16 @@ Theorem C19_arg_text_pinned_refuted :
 Proof. exact arg_text_pinned_refuted. Qed.
 Print Assumptions C19_arg_text_pinned_refuted.
 
+(* tokens of an argument that were apart in the source stay apart (one blank), adjacent ones stay adjacent
+   (HRepaired = with fixes/C19-lazy-argument-spacing.patch; before it `~ ~1 ~` was substituted as `~~1~`) *)
+Theorem C19_arg_text_spacing :
+  forall is_kw a b,
+    arg_text HRepaired is_kw [AOther a; AGap; AOther b] = (a ++ " " ++ b)%string /\
+    arg_text HRepaired is_kw [AOther a; AOther b] = (a ++ b)%string /\
+    arg_text HPinned is_kw [AOther a; AGap; AOther b] = (a ++ b)%string.
+Proof. exact arg_text_spacing. Qed.
+Print Assumptions C19_arg_text_spacing.
+
 (* A string-literal argument is written as a literal (Python's repr of the decoded content, quotes included) that
    the function-content tokenizer (ast.literal_eval; py_unquote models it on the escapes repr produces) reads
    back as exactly the same string: `$p` stands for the string the caller wrote, in either call form.
